@@ -239,7 +239,7 @@ pub fn gen_history(seed: u64, max_ops: usize, allow_abandon: bool, extra: bool) 
     ops.push(Op::OpenRo);
     ops.push(Op::Check);
     ops.push(Op::Close);
-    Scenario { seed, env, ops, fault: Default::default(), fault_ops: vec![], post: None, knobs: Default::default() }
+    Scenario { seed, env, ops, fault: Default::default(), fault_ops: vec![], post: None, medium: None, knobs: Default::default() }
 }
 
 // ---------------------------------------------------------------------------------------------
@@ -416,7 +416,7 @@ pub fn gen_corpus(seed: u64, cfg: &CorpusCfg) -> Scenario {
         ops.push(Op::Check);
         ops.push(Op::Close);
     }
-    Scenario { seed, env, ops, fault: Default::default(), fault_ops: vec![], post: None, knobs: Default::default() }
+    Scenario { seed, env, ops, fault: Default::default(), fault_ops: vec![], post: None, medium: None, knobs: Default::default() }
 }
 
 // ---------------------------------------------------------------------------------------------
@@ -545,5 +545,31 @@ pub fn gen_tickets(seed: u64, capacity_focus: bool) -> Scenario {
     // the sequence survives reopen: the last accepted number must be rejected again
     ops.push(Op::Ticket { issuer: "late".into(), seq, capacity: None });
     ops.push(Op::Close);
-    Scenario { seed, env, ops, fault: Default::default(), fault_ops: vec![], post: None, knobs: Default::default() }
+    Scenario { seed, env, ops, fault: Default::default(), fault_ops: vec![], post: None, medium: None, knobs: Default::default() }
+}
+
+// ---------------------------------------------------------------------------------------------
+// C17: a second writer / a third-party lock probe at random points of a first writer's life
+pub fn gen_two_writers(seed: u64, max_ops: usize) -> Scenario {
+    let mut r = Rng::new(seed, "two-writers");
+    let mut s = gen_history(seed, max_ops, true, true);
+    let mut ops: Vec<Op> = Vec::with_capacity(s.ops.len() * 2);
+    let p_probe = *r.pickv(&[2u64, 3, 5]);
+    for o in std::mem::take(&mut s.ops) {
+        let was_mutation = o.is_mutation() || matches!(o, Op::Create | Op::Open);
+        ops.push(o);
+        if was_mutation && r.chance(1, p_probe) {
+            match r.below(10) {
+                0..=4 => ops.push(Op::Open2),
+                5..=7 => ops.push(Op::LockProbe),
+                8 => ops.push(Op::Doctor2),
+                _ => {
+                    ops.push(Op::Downgrade);
+                    ops.push(if r.chance(1, 2) { Op::Open2 } else { Op::LockProbe });
+                }
+            }
+        }
+    }
+    s.ops = ops;
+    s
 }
